@@ -6,7 +6,7 @@ Theorems: lean/I18nVerif/Theorems/C16.lean.  Correspondence: harness ctx_h (`ops
 from .common import *
 
 RULE = ("random operation sequences (1..200 operations) over {make_memo(view, kind in locale/t_string/td_string/t_display/t_plural), "
-        "read_memo(i), provide_root (the real <I18nContextProvider>), child_owner(owner), provider(owner, optional initial "
+        "read_memo(i), provide_root (the real <I18nContextProvider>), provide_again(owner) (a nested <I18nContextProvider>: must hand over the existing context), child_owner(owner), provider(owner, optional initial "
         "locale) (the real <I18nSubContextProvider>, children capture use_i18n() and their owner), use_ctx(owner), and the "
         "composite pattern 'set_locale_untracked(x); set_locale(x) through a view of the same context; read earlier memos'} "
         "in MIXED sequences with {new_root, sub(parent view or none, optional initial locale), "
@@ -54,7 +54,7 @@ def gen_sequence(rng, names, maxlen, tracked_only=False):
                                (8, "make_memo"), (16 if nmemos else 0, "read_memo"),
                                (0 if tracked_only or not nmemos else 8, "pattern_same_value"),
                                (3 if nowners else 0, "child_owner"), (7 if nowners else 0, "provider"),
-                               (9 if nowners else 0, "use_ctx")])
+                               (9 if nowners else 0, "use_ctx"), (4 if nowners else 0, "provide_again")])
         if op == "new_root":
             steps.append({"op": "new_root", "accept_language": rng.pick(names) if rng.chance(4, 5) else None})
             new_view()
@@ -109,6 +109,10 @@ def gen_sequence(rng, names, maxlen, tracked_only=False):
         elif op == "use_ctx":
             # every owner descends from a provide_root, so a context is always found
             steps.append({"op": "use_ctx", "owner": rng.below(nowners)})
+            new_view()
+        elif op == "provide_again":
+            # a nested `<I18nContextProvider>`: its children get the context already provided above (the model's `use_ctx`)
+            steps.append({"op": "provide_again", "owner": rng.below(nowners)})
             new_view()
     return steps
 
@@ -256,6 +260,8 @@ def to_model(steps, idx):
                         "fallback": 0})
         elif op in ("set", "set_untracked"):
             out.append({"op": op, "view": s["view"], "locale": idx[s["locale"]]})
+        elif op == "provide_again":
+            out.append({"op": "use_ctx", "owner": s["owner"]})
         elif op in ("make_closure", "make_memo"):
             out.append({"op": op, "view": s["view"]})
         else:
@@ -286,7 +292,7 @@ def impl_obs(step, o, levels, idx, mlevels=None):
         return {"ctx": o["ctx"], "owner": o["owner"], "view": o["view"]}, None
     if op == "child_owner":
         return {"owner": o["owner"]}, None
-    if op == "use_ctx":
+    if op in ("use_ctx", "provide_again"):
         if o.get("not_found"):
             return {"not_found": True}, None
         return {"ctx": o["ctx"], "view": o["view"]}, None
@@ -316,7 +322,7 @@ def nontrivial(steps):
     for s in steps:
         if s["op"] in ("set", "set_untracked"):
             seen_set = True
-        elif seen_set and s["op"] in ("get", "get_untracked", "call_closure", "read_memo", "use_ctx"):
+        elif seen_set and s["op"] in ("get", "get_untracked", "call_closure", "read_memo", "use_ctx", "provide_again"):
             return True
     return False
 
